@@ -10,7 +10,7 @@ from . import gen as G
 
 ID = 'C05'
 HERE = os.path.dirname(os.path.abspath(__file__))
-CASES = {'quick': 700, 'thorough': 30000}
+CASES = {'quick': 700, 'thorough': 15000}
 PARALLEL = True
 PROOF_TIMEOUT = 1500
 ALLOWED_AXIOMS = ()
